@@ -3,7 +3,7 @@ import MythVerif.Proofs.WsQueueTsoTac
 namespace MythVerif.WsqTso
 open MythVerif.Wsq
 
-set_option maxHeartbeats 1000000 in
+set_option maxHeartbeats 4000000 in
 theorem o_pq (s s' : St) : Inv s → s.opc = .pq → stepO s = some s' → Inv s' := by
   intro h heq hs
   have hc := h.carryC (by simp [heq, carry])
@@ -16,7 +16,7 @@ theorem o_pq (s s' : St) : Inv s → s.opc = .pq → stepO s = some s' → Inv s
   all_goals simp only [heq, ownerLocked, carry, resetting, ownerFlight] at *
   all_goals tso_finish
 
-set_option maxHeartbeats 1000000 in
+set_option maxHeartbeats 4000000 in
 theorem o_po1 (s s' : St) : Inv s → s.opc = .po1 → stepO s = some s' → Inv s' := by
   intro h heq hs
   have hc := h.carryC (by simp [heq, carry])
@@ -27,7 +27,7 @@ theorem o_po1 (s s' : St) : Inv s → s.opc = .po1 → stepO s = some s' → Inv
   simp only [heq, ownerLocked, carry, resetting, ownerFlight] at *
   tso_finish
 
-set_option maxHeartbeats 1000000 in
+set_option maxHeartbeats 4000000 in
 theorem o_pof (s s' : St) (t) : Inv s → s.opc = .pof t → stepO s = some s' → Inv s' := by
   intro h heq hs
   have hcfg := h.cfg
